@@ -33,6 +33,11 @@ pub trait Nested {
     fn op_dot(_op: &<Self::V as CmRDT>::Op) -> Option<String> {
         None
     }
+    /// extra top-level observation of the nested value under a key (`None` = key absent); empty = nothing printed.
+    /// Orswot: members with their remove contexts (what C05's nested-read theorem speaks about)
+    fn members(_v: Option<&Self::V>) -> String {
+        String::new()
+    }
 }
 
 pub struct NMV;
@@ -101,6 +106,18 @@ impl Nested for NOR {
     fn read(v: &Self::V) -> String {
         let r = v.read();
         format!("{}@{}/{}", sorted_nats(r.val.iter()), clock(&r.add_clock), clock(&r.rm_clock))
+    }
+    fn members(v: Option<&Self::V>) -> String {
+        let mut ms = vec![];
+        if let Some(v) = v {
+            for m in 0..3u64 {
+                let c = v.contains(&m);
+                if c.val {
+                    ms.push(format!("{}:{}", m, clock(&c.rm_clock)));
+                }
+            }
+        }
+        format!("[{}]", ms.join(";"))
     }
 }
 
@@ -244,7 +261,14 @@ where
         Some(())
     }
     fn obs(s: &Self::S) -> String {
-        format!("{} {}", map_state::<N>(&to_tree(s)), map_reads::<N>(s))
+        let mut out = format!("{} {}", map_state::<N>(&to_tree(s)), map_reads::<N>(s));
+        for k in 0..KEYS {
+            let x = N::members(s.get(&k).val.as_ref());
+            if !x.is_empty() {
+                out += &format!(" nm{}={}", k, x);
+            }
+        }
+        out
     }
     fn validate_op(s: &Self::S, op: &Self::Op) -> String {
         use crdts::map::CmRDTValidation as V;
